@@ -30,14 +30,14 @@ SHAPES = ["close_local", "close_remote", "end_of_exec", "drop_local", "drop_remo
 def shards(tier, seed):
     out = []
     for i in range(6 if tier == "quick" else 12):
-        out.append({"kind": "ids", "mode": ("sync", "noise", "pct")[i % 3], "runs": 20 if tier == "quick" else 400})
+        out.append({"kind": "ids", "mode": ("sync", "noise", "pct")[i % 3], "runs": 20 if tier == "quick" else 2000})
     out.append({"kind": "ids_sweep", "ks": [1, 2, 3] if tier == "quick" else [1, 2, 3, 5, 8]})
     for i in range(3 if tier == "quick" else 6):
-        out.append({"kind": "transfer", "runs": 100 if tier == "quick" else 2000})
+        out.append({"kind": "transfer", "runs": 100 if tier == "quick" else 8000})
     for i in range(5 if tier == "quick" else 10):
-        out.append({"kind": "cycles", "n": 400 if tier == "quick" else 8000, "transport": ("pipe", "tcp")[i % 2]})
+        out.append({"kind": "cycles", "n": 400 if tier == "quick" else 30000, "transport": ("pipe", "tcp")[i % 2]})
     for sp in ("popen", "socket", "via"):
-        out.append({"kind": "real", "spec": sp, "n": 150 if tier == "quick" else 4000})
+        out.append({"kind": "real", "spec": sp, "n": 150 if tier == "quick" else 15000})
     return out
 
 
